@@ -116,3 +116,27 @@ __CPROVER_ensures(!RET ==> (transit_event_p->logger_base->pattern_formatter == N
 ''')],
     harness='  TE* te; LB* l; BW_share_pred(te, l);', dropped=['shared_ptr ownership', 'options compared by content id (operator==: unit PFO.equals)'], trusted=[], min_obligations=6)
 UNITS.append(fi_lambda)
+
+fi_init = dict(
+    name='BW.formatter_init', primary='C12', props={'C12', 'C16'}, kind='S',
+    desc='formatter set-up at the head of _dispatch_transit_event_to_sinks: a logger that has no formatter yet ends up with one built from its own options - adopted from a logger with equal options or created',
+    structs=[], prelude=FI_PRELUDE + r'''
+typedef struct BWf { int dummy; } BWf;
+/* _logger_manager.for_each_logger(lambda): the look-up lambda (unit BW.formatter_share) applied to the registered loggers */
+void FOR_EACH_SHARE(BWf* self, TE* te) __CPROVER_assigns(te->logger_base->pattern_formatter)
+__CPROVER_ensures(te->logger_base->pattern_formatter == NULL || (__CPROVER_is_fresh(te->logger_base->pattern_formatter, sizeof(PFm)) && te->logger_base->pattern_formatter->g_options == te->logger_base->pattern_formatter_options));
+''', enforce='BW_formatter_init', replace=['FOR_EACH_SHARE'],
+    funcs=[dict(src=dict(header=BWH, cls='BackendWorker', name='_dispatch_transit_event_to_sinks',
+                         stmt_re=r'if \([^{};]*!transit_event\.logger_base->pattern_formatter[^{};]*\)\s*\{.*?std::make_shared<PatternFormatter>\([^;]*\);\s*\}\s*\}'),
+                cfun='BW_formatter_init', sig='void BW_formatter_init(BWf* self, TE* transit_event_p)', member_fields=[],
+                pre_rules=[(r'_logger_manager\.for_each_logger\(\s*\[&transit_event\]\(LoggerBase\*\s*logger\)\s*\{.*?return false;\s*\}\s*\)\s*;', 'FOR_EACH_SHARE(self, transit_event_p);', '!'),
+                           (r'std::make_shared<PatternFormatter>\(', 'PF_make_shared('), (r'\btransit_event\.', 'transit_event_p->'), (r'__builtin_expect\((.*?),\s*[01]\)', r'(\1)', '?')],
+                contract=r'''
+__CPROVER_requires(__CPROVER_is_fresh(self, sizeof(*self)) && __CPROVER_is_fresh(transit_event_p, sizeof(TE)) && __CPROVER_is_fresh(transit_event_p->logger_base, sizeof(LB)) && g_creates == 0)
+__CPROVER_requires(transit_event_p->logger_base->pattern_formatter == NULL || (__CPROVER_is_fresh(transit_event_p->logger_base->pattern_formatter, sizeof(PFm)) && transit_event_p->logger_base->pattern_formatter->g_options == transit_event_p->logger_base->pattern_formatter_options))
+__CPROVER_assigns(transit_event_p->logger_base->pattern_formatter, g_creates, __CPROVER_object_whole(&g_new_pf))
+__CPROVER_ensures(transit_event_p->logger_base->pattern_formatter != NULL && transit_event_p->logger_base->pattern_formatter->g_options == transit_event_p->logger_base->pattern_formatter_options) /*@ C12,C16 "every statement is rendered by a formatter built from its own logger's pattern options" */
+__CPROVER_ensures(OLD(transit_event_p->logger_base->pattern_formatter) != NULL ==> transit_event_p->logger_base->pattern_formatter == OLD(transit_event_p->logger_base->pattern_formatter)) /*@ C12 "a logger keeps the formatter it has" */
+''')],
+    harness='  BWf* s; TE* te; BW_formatter_init(s, te);', dropped=['shared_ptr ownership', 'options as content ids'], trusted=['LoggerManager::for_each_logger applies the lambda to registered loggers until it returns true (unit BW.formatter_share for the lambda)'], min_obligations=6)
+UNITS.append(fi_init)
